@@ -74,7 +74,8 @@ func (r ruleSpec) String() string {
 var stdMethods = []string{"GET", "HEAD", "POST", "PUT", "PATCH", "DELETE", "CONNECT", "OPTIONS", "TRACE"}
 
 // methodSet is the documented semantics: empty list = all; ALL expands to the standard methods;
-// !X removes X. ok=false marks the don't-care configurations (only negations, or an empty result).
+// !X removes X. A list which leaves no method (only negations, or everything excluded again) allows none: a request
+// with an excluded method certainly does not match (heimdall may as well refuse such a rule).
 func methodSet(list []string) (set map[string]bool, any bool, defined bool) {
 	if len(list) == 0 {
 		return nil, true, true
@@ -102,7 +103,15 @@ func methodSet(list []string) (set map[string]bool, any bool, defined bool) {
 		}
 	}
 
-	return set, false, hasPositive && len(set) != 0
+	_ = hasPositive
+
+	return set, false, true
+}
+
+func allowsNoMethod(list []string) bool {
+	set, any, _ := methodSet(list)
+
+	return !any && len(set) == 0
 }
 
 func decodeCapture(raw, slash string) string {
@@ -129,7 +138,9 @@ func decodeCapture(raw, slash string) string {
 }
 
 // "%25" is the escaped percent sign: followed by "20" the value is the text "%20", which must not be decoded a second time
-var atoms = []string{"a", "b", "x", "-", ".", "%41", "%5B", "%5b", "%20", "%25", "%C3%A9", "%3A", "%2A", "%7E", "a", "b", "%25", "%25", "20", "41"}
+var atoms = []string{"a", "b", "x", "-", ".", "%41", "%5B", "%5b", "%20", "%25", "%C3%A9", "%3A", "%2A", "%7E", "a", "b", "%25", "%25", "20", "41",
+	// sub-delims are legal in a segment as they are; the longer ones read like markers an implementation might use internally
+	"$", "+", "@", "=", "$$$escaped-slash-uc$$$", "$$$escaped-slash-lc$$$", "$$$escaped-slash$$$"}
 
 func genRawSeg(t *rapid.T, slashOK bool, label string) string {
 	n := rapid.IntRange(1, 4).Draw(t, label+".n")
@@ -309,7 +320,13 @@ func genCase(t *rapid.T) ([]ruleSpec, request) {
 		r.Methods = rapid.SampledFrom([][]string{
 			nil, nil, {"GET"}, {"POST", "GET"}, {"ALL"}, {"ALL", "!GET"}, {"ALL", "!POST", "!DELETE"}, {"GET", "GET", "POST"},
 			{"ALL", "PURGE"}, {"PURGE"}, {"ALL", "!PURGE"}, {"DELETE", "ALL", "!DELETE"},
+			{"POST", "!GET"},
 		}).Draw(t, "methods")
+
+		// now and then a list which leaves no method at all
+		if rapid.IntRange(0, 19).Draw(t, "noMethodLeft") == 7 { // (rapid prefers the bounds of a range)
+			r.Methods = rapid.SampledFrom([][]string{{"!GET"}, {"GET", "!GET"}, {"!POST", "!GET"}, {"ALL", "!GET", "!HEAD", "!POST", "!PUT", "!PATCH", "!DELETE", "!CONNECT", "!OPTIONS", "!TRACE"}}).Draw(t, "methodsLeavingNone")
+		}
 
 		nh := rapid.SampledFrom([]int{0, 0, 1, 2, 3}).Draw(t, "nhosts")
 		for k := 0; k < nh; k++ {
@@ -509,7 +526,19 @@ func TestMatchConditionsAndCaptures(t *testing.T) {
 				return
 			}
 
+			for _, r := range rules {
+				if allowsNoMethod(r.Methods) && strings.Contains(err.Error(), "method") {
+					vkit.S.Label("method_list_allowing_no_method:rejected_on_load")
+
+					return
+				}
+			}
+
 			t.Fatalf("valid rule set rejected: %v\nrules: %v", err, rules)
+		}
+
+		for _, r := range rules {
+			vkit.S.LabelIf(allowsNoMethod(r.Methods), "method_list_allowing_no_method:accepted_on_load")
 		}
 
 		vkit.S.LabelIf(hasAltNames(rules), "alt_wildcard_names:accepted_on_load")
